@@ -501,17 +501,21 @@ def impl_levels(case: dict, rec: dict) -> tuple[float, float]:
 
 
 def single_precision_noise(case: dict, rec: dict, scale: float, vmin: float, vrng: float, dev: float) -> float:
-    """bound on |deviation seen by the optimiser - deviation recomputed in binary64| (both in units of scale^2) when
+    """bound on |deviation seen by the optimiser - deviation recomputed in binary64| (both in units of scale^2): rounding of
+    binary64 at the magnitude of the normalised terms, and of single precision when
     the image is float32 / float16 (the normalised data `data_mask / scale` keep that type) or a level was supplied as
     numpy.float32 (the normalised levels are float32): every one of the N residuals is off by at most
     e = eps * M, M the largest normalised magnitude involved; |sum (r+d)^2 - sum r^2| <= 2 sqrt(N dev) e + N e^2"""
     dt = np.dtype(case["image"].get("dtype", "float64"))
-    eps = 0.0
+    # binary64 itself: the implementation evaluates the residuals in units of the intensity range, the recomputation in image
+    # units; both round every residual at the magnitude M of its terms (an offset that dwarfs the range, e.g. levels -1 and
+    # -1 + 3e-10, gives M = 3e9 and residuals known to 4e-7 only)
+    eps = float(np.finfo(float).eps)
     if dt.kind == "f" and dt.itemsize < 8:
         eps = float(np.finfo(dt).eps)
     if case.get("vtype") == "np.float32" and not (case["vmin"] is None and case["vmax"] is None):
         eps = max(eps, float(np.finfo(np.float32).eps))
-    if eps == 0.0 or rec.get("region") is None or not rec["region"].any():
+    if rec.get("region") is None or not rec["region"].any():
         return 0.0
     n = int(rec["region"].sum())
     big = max(float(np.max(np.abs(rec["image"][rec["region"]].astype(float)))), abs(vmin) + abs(vrng)) / scale
@@ -781,14 +785,19 @@ def gen_grid_special(rng: random.Random, kind: str) -> dict:
     if kind == "inner_radius":
         fam = rng.choice(["polar", "spherical"])
         n = rng.randint(10, 16)
-        r0 = h * rng.choice([0.5, 1.0, 2.0, 3.0])
+        r0 = h * rng.choice([0.5, 2.0, 3.0])
+        return {"family": fam, "radius": [r0, r0 + n * h], "shape": n}
+    if kind.startswith("annular_core_"):     # a core of 1, 4, 8, 16 cells removed around the origin
+        fam = rng.choice(["polar", "spherical"])
+        n = rng.randint(12, 16)
+        r0 = h * int(kind.rsplit("_", 1)[1])
         return {"family": fam, "radius": [r0, r0 + n * h], "shape": n}
     raise ValueError(kind)
 
 
 GRID_KINDS = ["negative", "centred", "positive", "aniso_first_larger", "aniso_last_larger", "counts_first_larger",
               "counts_last_larger", "cyl_narrow", "cyl_flat", "cyl_dz_larger", "cyl_dz_smaller", "thin1", "thin2",
-              "inner_radius"]
+              "inner_radius", "annular_core_1", "annular_core_4", "annular_core_8", "annular_core_16"]
 ACTIVE_KINDS = ["last_amplitude", "radius", "width", "vrng_hi", "vmin_lo", "vmin_hi", "vrng_lo"]
 CAND_KINDS = ["radius0", "width0", "on_face_periodic", "on_face_nonperiodic", "corner_periodic", "corner", "outside_nonperiodic",
               "amplitude_on_bound", "amplitudes_zero", "last_amplitude_only", "on_locus", "off_locus"]
@@ -840,6 +849,13 @@ def gen_dim_case(rng: random.Random, k: int) -> dict:
             # a candidate longer in z-cells than the grid has radial cells
             hs = spacing(gs)
             case["image"]["truth"][0]["radius"] = case["candidate"]["radius"] = min(0.8 * gs["radius"], (gs["shape"][0] + 2) * hs[1] / 2 + hs[1])
+        if kind.startswith("annular_core_") or kind == "inner_radius":
+            # the droplet covers the removed core and ends inside the annulus
+            hs = spacing(gs)
+            r_in, r_out = gs["radius"]
+            t = case["image"]["truth"][0]
+            t["radius"] = r_in + rng.uniform(2.0, 0.6 * gs["shape"]) * hs[0]
+            case["candidate"]["radius"] = min(max(t["radius"] * rng.uniform(0.9, 1.1), r_in + hs[0]), r_out - hs[0])
         case["dim"] = "grid:" + kind
         return case
     if group == "active":
@@ -1100,6 +1116,8 @@ def count_dimensions(ctx, case: dict, rec: dict):
                   "flat (fewer z-cells than radial cells)" if axes[1][2] < axes[0][2] else "regular")
     if gs["family"] in ("polar", "spherical"):
         ctx.count("inner_radius", "> 0" if axes[0][0] > 0 else "0")
+        core = axes[0][0] / hs[0]
+        ctx.count("annular_core_width_in_cells", "0" if core == 0 else str(int(core)) if core in (1, 4, 8, 16) else "other (0.5, 2, 3)")
     ctx.count("candidate_provenance", "result object of a refinement" if case.get("after") else case.get("prov", "fresh"))
     ctx.count("called_through", case.get("via", "refine_droplet"))
     ctx.count("candidate_numeric_type", case.get("ctype", "list"))
